@@ -70,6 +70,15 @@ def gen_world(rng) -> list:
     add_file("da", "f1", 8)
     add_dir("da", "sub")
     add_file("da/sub", "f2", 5)
+    for lp, tgt in (("da/lsib", "../dab/f1"), ("da/lout", "../outside/secret"), ("da/ldirout", "../outside"),
+                    ("da/lin", "sub/f2"), ("da/loop1", "loop2"), ("da/loop2", "loop1"), ("lbase", "da"),
+                    ("da/sub/labs", W + "/da/f1")):
+        if rng.random() < 0.85:
+            taken.add(lp)
+            plan.append(["symlink", lp, tgt])
+    if rng.random() < 0.85:
+        taken.add("da/hsecret")
+        plan.append(["hardlink", "da/hsecret", "outside/secret"])
     # ... plus random growth
     for _ in range(rng.randrange(2, 9)):
         d = rng.choice(dirs)
